@@ -99,54 +99,138 @@ fn snap_sorted(m: &HashMap<String, ReplicatedValue>) -> Vec<(String, MRv)> {
 }
 
 
-/// every place of the anchored files that CREATES or ADVANCES a stamp, counted in the source the
-/// binary was built against and compared with the op table of the model (`Model/Replica.lean`):
-/// a new `tick()` / `update()` / clock construction / direct assignment to `.time` that no model
-/// op accounts for changes a count and fails the check
+/// every place of the anchored MODULE TREES that CREATES or ADVANCES a stamp, counted in the
+/// source the binary was built against and compared with the op table of the model
+/// (`Model/Replica.lean`): a new `tick()` / `update()` / clock construction / direct assignment to
+/// `.time` that no model op accounts for changes a count and fails the check.
+/// Session 4, round 2: the unit is the module tree of an anchored file (the file and every child
+/// module file it declares with `mod x;`, transitively), not the file — `LamportClock` moved into a
+/// private submodule `lattice/clock.rs` is the same `LamportClock`; every stamp pattern is counted
+/// in every tree (0 expected where the model has no op), whitespace-insensitively; each site is
+/// listed with file:line and the function that encloses it, and the sites in functions the table
+/// does not know are named in the violation.
 fn stamp_sites(out: &mut Out) {
-    use crate::c06msg::{non_test, read_src, repo_dir};
-    // (file, pattern, expected count, model op(s) that transcribe these sites)
-    let table: [(&str, &str, usize, &str); 12] = [
-        ("src/replication/lattice.rs", ".tick()", 2, "LwwRegister::set / delete tick the clock they are handed → Lww.set / Lww.delete with `clock.tick` in recordWrite, recordDelete, hashSetStep, hashDelStep"),
-        ("src/replication/lattice.rs", ".time += ", 1, "LamportClock::tick → Stamp.tick"),
-        ("src/replication/lattice.rs", ".time = ", 1, "LamportClock::update → Stamp.update"),
-        ("src/replication/lattice.rs", "LamportClock::new(", 1, "LwwRegister::new → Lww.new (time 0)"),
-        ("src/replication/state/replicated_value.rs", ".tick()", 1, "ReplicatedValue::delete, hash arm: one fresh stamp for every field → recordDelete (.hash)"),
-        ("src/replication/state/replicated_value.rs", "LamportClock::new(", 2, "ReplicatedValue::new / with_crdt → RV.new (stamp (0, rid))"),
-        ("src/replication/state/replicated_value.rs", ".time = ", 0, "no direct assignment to a clock time (self.timestamp = *clock copies a ticked clock)"),
-        ("src/replication/state/shard_state.rs", ".update(", 1, "apply_remote_delta → Shard.applyRemote (clock := update clock delta.ts)"),
-        ("src/replication/state/shard_state.rs", "LamportClock::new(", 1, "ShardReplicaState::new → Shard.init (clock (0, rid))"),
-        ("src/replication/state/shard_state.rs", ".tick()", 0, "the shard never ticks directly: through ReplicatedValue / LwwRegister"),
-        ("src/production/replicated_shard_actor.rs", "lamport_clock.update(", 1, "ApplyRecoveredState → Shard.applyRecovered (clock := update clock value.ts)"),
-        ("src/production/replicated_shard_actor.rs", ".tick()", 0, "the actor never ticks a Lamport clock itself"),
-    ];
-    let mut rows = Vec::new();
-    for (file, pat, want, op) in table {
-        let Some(src) = read_src(file) else {
-            out.violation("C08:coverage:source-scan-failed", "an anchored source file could not be read from the tree the harness was built against", json!({"file": file, "tree": repo_dir()}));
-            continue;
-        };
-        let lib = non_test(&src);
-        let lib = match lib.find("#[cfg(kani)]") { Some(i) => &lib[..i], None => lib };
-        // code only: whole-line and trailing `//` comments do not count (a comment that mentions
-        // `clock.tick()` is not a stamp site)
-        let got = lib.lines().map(|l| l.split("//").next().unwrap_or("")).map(|l| l.matches(pat).count()).sum::<usize>();
-        rows.push(json!({"file": file, "pattern": pat, "sites": got, "model": op}));
-        if got < want {
-            // FEWER textual sites than the table: call sites were folded into a helper (or a site was
-            // removed — then the stamps themselves differ and the correspondence says so); nothing
-            // new can reach the property undriven
-            out.count(&format!("stamp-sites:fewer-than-table:{}:{}", file.rsplit('/').next().unwrap_or(file), pat.trim()));
+    use crate::c06msg::repo_dir;
+    use crate::modtree;
+    // how a code line (whitespace removed) shows each kind of site
+    fn count(kind: &str, l: &str) -> usize {
+        match kind {
+            ".tick()" => l.matches(".tick()").count(),
+            ".update(" => l.matches(".update(").count(),
+            "LamportClock::new(" => l.matches("LamportClock::new(").count(),
+            "LamportClock {" => {
+                // a struct literal (not the declaration, an impl header or a return type)
+                if l.contains("structLamportClock") || l.starts_with("impl") || l.contains("fn") && l.contains("->") { 0 } else { l.matches("LamportClock{").count() }
+            }
+            // `.time = ..` (not `==`) and `.time += ..` / any other compound assignment
+            ".time =" | ".time +=" => {
+                let mut n = 0;
+                let mut from = 0;
+                while let Some(p) = l[from..].find(".time") {
+                    let rest = &l[from + p + 5..];
+                    let plain = rest.starts_with('=') && !rest.starts_with("==");
+                    let compound = ["+=", "-=", "*=", "/=", "%=", "|=", "&=", "^=", "<<=", ">>="].iter().any(|o| rest.starts_with(o));
+                    if (kind == ".time =" && plain) || (kind == ".time +=" && compound) {
+                        n += 1;
+                    }
+                    from += p + 5;
+                }
+                n
+            }
+            _ => 0,
         }
-        if got > want {
+    }
+    const KINDS: [&str; 6] = [".tick()", ".time +=", ".time =", "LamportClock::new(", ".update(", "LamportClock {"];
+    // (root of the module tree, pattern, expected count, functions known to hold the sites, model op(s))
+    let table: [(&str, &str, usize, &[&str], &str); 11] = [
+        ("src/replication/lattice.rs", ".tick()", 2, &["LwwRegister::set", "LwwRegister::delete"], "LwwRegister::set / delete tick the clock they are handed → Lww.set / Lww.delete with `clock.tick` in recordWrite, recordDelete, hashSetStep, hashDelStep"),
+        ("src/replication/lattice.rs", ".time +=", 1, &["LamportClock::tick"], "LamportClock::tick → Stamp.tick"),
+        ("src/replication/lattice.rs", ".time =", 1, &["LamportClock::update"], "LamportClock::update → Stamp.update"),
+        ("src/replication/lattice.rs", "LamportClock::new(", 1, &["LwwRegister::new"], "LwwRegister::new → Lww.new (time 0)"),
+        ("src/replication/lattice.rs", "LamportClock {", 2, &["LamportClock::new", "LamportClock::merge"], "LamportClock::new → stamp (0, rid); LamportClock::merge → Stamp.mergeClock (C07 K lines)"),
+        ("src/replication/state/replicated_value.rs", ".tick()", 1, &["ReplicatedValue::delete"], "ReplicatedValue::delete, hash arm: one fresh stamp for every field → recordDelete (.hash)"),
+        ("src/replication/state/replicated_value.rs", "LamportClock::new(", 2, &["ReplicatedValue::new", "ReplicatedValue::with_crdt"], "ReplicatedValue::new / with_crdt → RV.new (stamp (0, rid))"),
+        ("src/replication/state/shard_state.rs", ".update(", 1, &["ShardReplicaState::apply_remote_delta"], "apply_remote_delta → Shard.applyRemote (clock := update clock delta.ts)"),
+        ("src/replication/state/shard_state.rs", "LamportClock::new(", 1, &["ShardReplicaState::new"], "ShardReplicaState::new → Shard.init (clock (0, rid))"),
+        ("src/production/replicated_shard_actor.rs", ".update(", 1, &["ReplicatedShardActor::run", "ReplicatedShardActor::handle_message"], "ApplyRecoveredState → Shard.applyRecovered (clock := update clock value.ts)"),
+        ("src/replication/state/crdt_value.rs", ".tick()", 0, &[], "CrdtValue never touches a Lamport clock (merge only compares stamps)"),
+    ];
+    let roots: Vec<&str> = {
+        let mut r: Vec<&str> = Vec::new();
+        for row in table.iter() {
+            if !r.contains(&row.0) {
+                r.push(row.0);
+            }
+        }
+        r
+    };
+    let mut rows = Vec::new();
+    let mut trees = serde_json::Map::new();
+    for root in roots {
+        let tree = modtree::tree(&repo_dir(), root);
+        if tree.files.is_empty() || !tree.unresolved.is_empty() {
             out.violation(
-                &format!("C08:coverage:stamp-site-not-modelled:{}:{}", file.rsplit('/').next().unwrap_or(file), pat.trim()),
-                "the number of places that create / advance a Lamport stamp differs from the op table of the model: a new site must get a model op (or the table must say why not)",
-                json!({"file": file, "pattern": pat, "expected": want, "found": got, "model_op": op}),
+                "C08:coverage:source-scan-failed",
+                "an anchored source file, or a child module it declares with `mod x;`, could not be read from the tree the harness was built against",
+                json!({"file": root, "unresolved": tree.unresolved, "tree": repo_dir()}),
             );
+            if tree.files.is_empty() {
+                continue;
+            }
+        }
+        trees.insert(root.to_string(), json!(tree.file_list()));
+        let short = root.rsplit('/').next().unwrap_or(root);
+        for kind in KINDS {
+            let (want, known, op): (usize, &[&str], &str) = table
+                .iter()
+                .find(|r| r.0 == root && r.1 == kind)
+                .map(|r| (r.2, r.3, r.4))
+                .unwrap_or((0, &[], "no site of this kind in this module tree: the model has no op for one"));
+            // the sites: file:line, enclosing function, code
+            let mut sites: Vec<(String, String, String)> = Vec::new();
+            for f in &tree.files {
+                for (i, l) in f.lines.iter().enumerate() {
+                    let norm: String = l.chars().filter(|c| !c.is_whitespace()).collect();
+                    for _ in 0..count(kind, &norm) {
+                        sites.push((format!("{}:{}", f.rel, i + 1), modtree::enclosing(&f.lines, i), l.trim().to_string()));
+                    }
+                }
+            }
+            let got = sites.len();
+            if want > 0 || got > 0 {
+                rows.push(json!({"module_tree": root, "pattern": kind, "sites": got, "expected": want, "at": sites.iter().map(|s| format!("{} in {}", s.0, s.1)).collect::<Vec<_>>(), "model": op}));
+            }
+            if got < want {
+                // FEWER textual sites than the table: call sites were folded into a helper (or a site was
+                // removed — then the stamps themselves differ and the correspondence says so); nothing
+                // new can reach the property undriven
+                out.count(&format!("stamp-sites:fewer-than-table:{}:{}", short, kind));
+            }
+            if got > want {
+                // name the new site(s): those in a function the table does not list for this row
+                // (all of them when every site sits in a known function, e.g. a second tick in `tick`)
+                let mut fresh: Vec<&(String, String, String)> = sites.iter().filter(|s| !known.contains(&s.1.as_str())).collect();
+                if fresh.is_empty() {
+                    fresh = sites.iter().collect();
+                }
+                out.violation(
+                    &format!("C08:coverage:stamp-site-not-modelled:{}:{}", short, kind),
+                    &format!(
+                        "more places create / advance a Lamport stamp in the module tree of {} than the op table of the model knows ({} > {}): new site {} — it must get a model op (or the table must say why not)",
+                        short,
+                        got,
+                        want,
+                        fresh.iter().map(|s| format!("{} in {} `{}`", s.0, s.1, s.2)).collect::<Vec<_>>().join("; ")
+                    ),
+                    json!({"module_tree": root, "files": tree.file_list(), "pattern": kind, "expected": want, "found": got,
+                           "new_sites": fresh.iter().map(|s| json!({"at": s.0, "in": s.1, "code": s.2})).collect::<Vec<_>>(),
+                           "all_sites": sites.iter().map(|s| json!({"at": s.0, "in": s.1})).collect::<Vec<_>>(), "model_op": op}),
+                );
+            }
         }
     }
     out.extra.insert("stamp_sites(from the source)".into(), json!(rows));
+    out.extra.insert("stamp_site_module_trees(files read per anchored module)".into(), serde_json::Value::Object(trees));
 }
 
 /// the Lamport time at the u64 boundary on a real `ShardReplicaState`: a peer's delta stamped
@@ -216,12 +300,16 @@ fn clock_boundary(out: &mut Out) {
 /// end, from the source the binary was built against: driven (with the counter that proves it ran
 /// in THIS run) or explained
 fn mailbox_coverage(out: &mut Out) {
-    use crate::c06msg::{non_test, read_src, repo_dir, scan_enum, scan_pub_fns};
+    use crate::c06msg::{repo_dir, scan_enum, scan_pub_fns};
     let mut table: BTreeMap<String, String> = BTreeMap::new();
-    let (Some(actor), Some(state)) = (read_src("src/production/replicated_shard_actor.rs"), read_src("src/production/replicated_state.rs")) else {
-        out.violation("C08:coverage:source-scan-failed", "an anchored source file could not be read from the tree the harness was built against", json!({"tree": repo_dir()}));
+    // module trees (the file and the child modules it declares), library code only
+    let (actor_t, state_t) = (crate::modtree::tree(&repo_dir(), "src/production/replicated_shard_actor.rs"), crate::modtree::tree(&repo_dir(), "src/production/replicated_state.rs"));
+    if actor_t.files.is_empty() || state_t.files.is_empty() || !actor_t.unresolved.is_empty() || !state_t.unresolved.is_empty() {
+        out.violation("C08:coverage:source-scan-failed", "an anchored source file, or a child module it declares with `mod x;`, could not be read from the tree the harness was built against", json!({"tree": repo_dir(), "unresolved": [actor_t.unresolved, state_t.unresolved]}));
         return;
-    };
+    }
+    let (actor, state) = (actor_t.text(), state_t.text());
+    let crate_code = crate::modtree::crate_files(&repo_dir());
     // name → (counter that must be > 0 in this run, or "" when explained), text
     let how = |n: &str| -> Option<(&'static str, &'static str)> {
         Some(match n {
@@ -248,7 +336,7 @@ fn mailbox_coverage(out: &mut Out) {
             _ => return None,
         })
     };
-    let mut names: Vec<String> = scan_enum(non_test(&actor), "ReplicatedShardMessage").into_iter().map(|v| format!("ReplicatedShardMessage::{}", v)).collect();
+    let mut names: Vec<String> = scan_enum(&actor, "ReplicatedShardMessage").into_iter().map(|v| format!("ReplicatedShardMessage::{}", v)).collect();
     names.extend(scan_pub_fns(&state, "ReplicatedShardedState").into_iter().map(|f| format!("ReplicatedShardedState::{}", f)));
     if names.iter().filter(|n| n.starts_with("ReplicatedShardMessage::")).count() < 8 || names.len() < 20 {
         out.violation("C08:coverage:source-scan-failed", "the source scan found fewer mailbox messages / front-end functions than the files are known to hold", json!({"found": names}));
@@ -261,6 +349,12 @@ fn mailbox_coverage(out: &mut Out) {
                 if !ran {
                     out.violation(&format!("C08:coverage:not-driven-in-this-run:{}", n), "a mailbox message / front-end function that the harness claims to drive did not run in this run (silently skipped)", json!({"name": n, "counter": counter}));
                 }
+            }
+            None if n.starts_with("ReplicatedShardedState::") && crate::modtree::uses_of(&crate_code, n.rsplit("::").next().unwrap_or("")).is_empty() => {
+                // a NEW pub fn of the front end that nothing in the crate calls or names: no server
+                // path can reach it — listed in the evidence, not a violation
+                table.insert(n.clone(), "NEW, not driven: no caller anywhere in the crate's library code".into());
+                out.count("coverage:new-uncalled-pub-fn");
             }
             None => {
                 table.insert(n.clone(), "UNACCOUNTED".into());
@@ -290,7 +384,7 @@ fn audit() -> serde_json::Value {
       {"class": 8, "topic": "node-global state", "covered": "the shard's Lamport clock is shared by all its keys: keys of one shard and of different shards; the vector clock in causal mode", "open": ""},
       {"class": 9, "topic": "observations", "covered": "the stamp of every delta handed back, full snapshots, what a peer holding everything serves after merging the post-restart write, that non-writing mailbox messages leave the replication state alone", "open": ""},
       {"class": 10, "topic": "finding signatures", "covered": "stale stamps are signed by the provenance of the stamp that was not exceeded (local / remote / recovered-checkpoint / recovered-delta); the overflow finding fires only in the boundary case", "open": ""},
-      {"class": 11, "topic": "harness fragility", "covered": "coverage counters must be positive in the run that claims them; source scans that fail or come out short are violations; the arithmetic of the build (checked / wrapping) is observed, not assumed; session 4: the stamp-site scan counts code only (comments stripped) and fails only for MORE sites than the model's table (fewer = call sites folded into a private helper); a persistent server that does not start, does not answer, or whose persisted state cannot be read back is a violation of its own", "open": ""},
+      {"class": 11, "topic": "harness fragility", "covered": "coverage counters must be positive in the run that claims them; source scans that fail or come out short are violations; the arithmetic of the build (checked / wrapping) is observed, not assumed; session 4: the stamp-site scan counts code only (comments stripped) and fails only for MORE sites than the model's table (fewer = call sites folded into a private helper); round 2: the unit of every source scan is the MODULE TREE of the anchored file (child modules declared with `mod x;`, library code only), every stamp pattern is counted in every tree, the violation names the new site (file:line, enclosing fn), a declared child module that cannot be read is a violation, a new pub fn nothing in the crate names is listed, not a violation; a persistent server that does not start, does not answer, or whose persisted state cannot be read back is a violation of its own", "open": ""},
       {"class": "session-4", "topic": "what session 4 added",
        "covered": "entry path: main() of bin/server_persistent.rs — compiled from its source text as the harness binary rvpersist and run as a child process: three incarnations over the same data / WAL directories (SIGKILL, SIGINT, SIGKILL), RESP writes with unique payloads, stamps read back from the WAL (WalRotator::recover_all_entries → to_delta) and the object store (RecoveryManager::recover), per-shard monotonicity across both restarts; history shapes: segment flushed / not flushed before the crash, a 300-write run, the object store lost after the first incarnation (recovery from the WAL alone: every entry replayed once, no +1-per-replay slack), recovery in TWO apply_recovered_state calls with an overlapping WAL part in the system histories; comparisons: remote stamps at 2^31, 2^32±1, 2^53, 2^63 and around a large clock",
        "open": "the gossip listener / gossip loop of the binary (replication is off in the boot histories); S3 store"},
